@@ -175,14 +175,32 @@ pub fn install_panic_hook() {
         // function of the first surf_n_term frame (robust against line shifts)
         let bt = std::backtrace::Backtrace::force_capture().to_string();
         let mut func = String::new();
+        if std::env::var_os("VERIF_DEBUG_BT").is_some() {
+            eprintln!("{bt}");
+        }
+        // first frame whose source file is neither std/core, a registry crate nor this harness:
+        // that is the library function that panicked: "<function>@<file>"
+        let harness_src = concat!(env!("CARGO_MANIFEST_DIR"), "/src/");
+        let mut last_sym = String::new();
         for line in bt.lines() {
             let line = line.trim();
-            if let Some(idx) = line.find(": ") {
-                let sym = &line[idx + 2..];
-                if sym.contains("surf_n_term::") && !sym.contains("snt_check") {
-                    func = sym.to_string();
+            if let Some(path) = line.strip_prefix("at ") {
+                let foreign = path.starts_with("/rustc/")
+                    || path.contains("/.cargo/registry/")
+                    || path.contains("/rustlib/")
+                    || path.starts_with(harness_src)
+                    || !path.starts_with('/');
+                if !foreign && !last_sym.is_empty() {
+                    let file = path.split(':').next().unwrap_or("");
+                    let base = file.rsplit('/').next().unwrap_or(file);
+                    // drop generic arguments from the symbol
+                    let name = last_sym.split('<').next().unwrap_or(&last_sym).to_string();
+                    let name = if name.is_empty() { last_sym.clone() } else { name };
+                    func = format!("{name}@{base}");
                     break;
                 }
+            } else if let Some(idx) = line.find(": ") {
+                last_sym = line[idx + 2..].to_string();
             }
         }
         LAST_PANIC.with(|p| *p.borrow_mut() = Some((format!("{func}|{msg}"), loc)));
